@@ -63,8 +63,12 @@ Record checkers := { is_checker : handler -> bool; needed : handler -> timing ->
 
 (* runWithCallbacks: the callbacks fired around the execution of a unit *)
 Inductive cbrole := CbStart | CbEnd | CbError.
-Inductive paykind := PayIn | PayOut | PayErr.       (* the closure's input / output / err *)
+Inductive paykind := PayIn | PayOut | PayErr | PayPanic.   (* the closure's input / output / err; the error made of a panic value *)
 Inductive rcall := RCall (r : cbrole) (p : paykind) | RExec.
+(* how the execution of the unit ends: it returns a result, returns an error, panics (the panic is
+   contained further up and becomes the error of the execution: in Model/Callbacks.v both are [fails]) *)
+Inductive exec_outcome := ExOk | ExErr | ExPanic.
+Definition fails_of (o : exec_outcome) : bool := match o with ExOk => false | _ => true end.
 
 Local Open Scope string_scope.
 
@@ -134,7 +138,7 @@ Section Tables.
 
   (* the On operations (with the payload they are handed) a unit issues around its execution *)
   Definition pay_of_kind (u : ukey) (k : paykind) : N :=
-    match k with PayIn => 3 * u | PayOut => 3 * u + 1 | PayErr => 3 * u + 2 end%N.
+    match k with PayIn => 3 * u | PayOut => 3 * u + 1 | PayErr | PayPanic => 3 * u + 2 end%N.
   Definition pops_of_calls (u : ukey) (p : N) (calls : list rcall) : list (op * N) :=
     flat_map (fun c => match c with
                        | RCall r k => match role_timing p r with
@@ -144,3 +148,145 @@ Section Tables.
                        | RExec => []
                        end) calls.
 End Tables.
+
+(* ------------------------------------------------------------------ the skeleton of runner.run (extractor "c10_tables") *)
+Local Close Scope string_scope.
+
+(* compose/graph_run.go, func (r *runner) run: everything that bears on the graph-level callbacks,
+   every other statement dropped: the calls of onGraphStart / onGraphEnd / onGraphError, the flag
+   haveOnStart, every return (with a nil or a non-nil error), and the control flow around them
+   (conditions that are not tests of the flag or, in the deferred function, of the named result
+   err are opaque: both branches are possible; switch / select become chains of opaque ifs) *)
+Inductive gcond :=
+| GcFlag                    (* haveOnStart *)
+| GcErr                     (* err != nil (the deferred function: the named result) *)
+| GcNot (c : gcond)
+| GcAnd (a b : gcond)
+| GcOr (a b : gcond)
+| GcOpaque (what : string).
+
+Inductive gstmt :=
+| GsCall (r : cbrole)
+| GsSetFlag (b : bool)
+| GsReturn (err : bool)
+| GsIf (c : gcond) (th el : list gstmt)
+| GsLoop (exits : bool) (body : list gstmt)   (* exits: the loop has a condition / ranges: it may end without a break *)
+| GsBreak
+| GsContinue.
+
+(* a state: the flag, the graph-level callbacks fired so far (latest first) *)
+Definition gstate := (bool * list cbrole)%type.
+
+Definition role_eqb (a b : cbrole) : bool :=
+  match a, b with CbStart, CbStart | CbEnd, CbEnd | CbError, CbError => true | _, _ => false end.
+Fixpoint roles_eqb (a b : list cbrole) : bool :=
+  match a, b with
+  | [], [] => true
+  | x :: a', y :: b' => role_eqb x y && roles_eqb a' b'
+  | _, _ => false
+  end.
+Definition gstate_eqb (a b : gstate) : bool := Bool.eqb (fst a) (fst b) && roles_eqb (snd a) (snd b).
+Definition add_state (s : gstate) (l : list gstate) : list gstate :=
+  if existsb (gstate_eqb s) l then l else l ++ [s].
+Definition union_states (a b : list gstate) : list gstate := fold_left (fun acc s => add_state s acc) b a.
+Definition rstate_eqb (a b : gstate * bool) : bool := gstate_eqb (fst a) (fst b) && Bool.eqb (snd a) (snd b).
+Definition union_rets (a b : list (gstate * bool)) : list (gstate * bool) :=
+  fold_left (fun acc s => if existsb (rstate_eqb s) acc then acc else acc ++ [s]) b a.
+
+(* the values a condition can take in a state ([err]: the named result, None outside the deferred function) *)
+Fixpoint cond_vals (err : option bool) (c : gcond) (s : gstate) : list bool :=
+  match c with
+  | GcFlag => [fst s]
+  | GcErr => match err with Some e => [e] | None => [true; false] end
+  | GcNot c' => map negb (cond_vals err c' s)
+  | GcAnd a b => flat_map (fun x => map (andb x) (cond_vals err b s)) (cond_vals err a s)
+  | GcOr a b => flat_map (fun x => map (orb x) (cond_vals err b s)) (cond_vals err a s)
+  | GcOpaque _ => [true; false]
+  end.
+
+(* what the execution of a statement list can do from a set of states: fall through, return
+   (with or without an error), leave the enclosing loop, start its next iteration; [bad]: a loop whose
+   body fires a callback or sets the flag (the number of iterations would matter) *)
+Record gout := { g_fall : list gstate; g_ret : list (gstate * bool); g_brk : list gstate; g_cont : list gstate; g_bad : bool }.
+Definition gout0 (fall : list gstate) : gout := {| g_fall := fall; g_ret := []; g_brk := []; g_cont := []; g_bad := false |}.
+
+Fixpoint stmt_quiet (s : gstmt) : bool :=
+  match s with
+  | GsCall _ | GsSetFlag _ => false
+  | GsIf _ th el => forallb stmt_quiet th && forallb stmt_quiet el
+  | GsLoop _ body => forallb stmt_quiet body
+  | _ => true
+  end.
+
+Section Exec.
+  Variable err : option bool.
+
+  Fixpoint exec_stmt (s : gstmt) (ins : list gstate) {struct s} : gout :=
+    let exec_list :=
+      fix exec_list (l : list gstmt) (ins : list gstate) {struct l} : gout :=
+        match l with
+        | [] => gout0 ins
+        | s :: l' =>
+            let o1 := exec_stmt s ins in
+            let o2 := exec_list l' (g_fall o1) in
+            {| g_fall := g_fall o2; g_ret := union_rets (g_ret o1) (g_ret o2);
+               g_brk := union_states (g_brk o1) (g_brk o2); g_cont := union_states (g_cont o1) (g_cont o2);
+               g_bad := g_bad o1 || g_bad o2 |}
+        end in
+    match s with
+    | GsCall r => gout0 (fold_left (fun acc st => add_state (fst st, r :: snd st) acc) ins [])
+    | GsSetFlag b => gout0 (fold_left (fun acc st => add_state (b, snd st) acc) ins [])
+    | GsReturn e => {| g_fall := []; g_ret := union_rets [] (map (fun st => (st, e)) ins); g_brk := []; g_cont := []; g_bad := false |}
+    | GsBreak => {| g_fall := []; g_ret := []; g_brk := ins; g_cont := []; g_bad := false |}
+    | GsContinue => {| g_fall := []; g_ret := []; g_brk := []; g_cont := ins; g_bad := false |}
+    | GsIf c th el =>
+        let t_in := filter (fun st => existsb (fun b => b) (cond_vals err c st)) ins in
+        let e_in := filter (fun st => existsb negb (cond_vals err c st)) ins in
+        let ot := exec_list th t_in in
+        let oe := exec_list el e_in in
+        {| g_fall := union_states (g_fall ot) (g_fall oe); g_ret := union_rets (g_ret ot) (g_ret oe);
+           g_brk := union_states (g_brk ot) (g_brk oe); g_cont := union_states (g_cont ot) (g_cont oe);
+           g_bad := g_bad ot || g_bad oe |}
+    | GsLoop exits body =>
+        (* a quiet body changes no state: whatever the number of iterations, the loop is left by a
+           return of the body, by a break, or (if it can) by its condition, in the state it was entered *)
+        let ob := exec_list body ins in
+        {| g_fall := union_states (g_brk ob) (if exits then ins else []);
+           g_ret := g_ret ob; g_brk := []; g_cont := [];
+           g_bad := g_bad ob || negb (forallb stmt_quiet body) |}
+    end.
+
+  Fixpoint exec_list (l : list gstmt) (ins : list gstate) {struct l} : gout :=
+    match l with
+    | [] => gout0 ins
+    | s :: l' =>
+        let o1 := exec_stmt s ins in
+        let o2 := exec_list l' (g_fall o1) in
+        {| g_fall := g_fall o2; g_ret := union_rets (g_ret o1) (g_ret o2);
+           g_brk := union_states (g_brk o1) (g_brk o2); g_cont := union_states (g_cont o1) (g_cont o2);
+           g_bad := g_bad o1 || g_bad o2 |}
+    end.
+End Exec.
+
+(* every way the function can end: the graph-level callbacks fired, in order, and whether it returns an
+   error: the body up to a return, then the deferred function with the named result set.  A return
+   whose error expression is not the literal nil may still yield nil at run time: both are followed. *)
+Definition ret_errs (syntactic : bool) : list bool := if syntactic then [true; false] else [false].
+
+Definition run_outcomes (flag0 : bool) (deferred body : list gstmt) : list (list cbrole * bool) * bool :=
+  let ob := exec_list None body [(flag0, [])] in
+  let rets := flat_map (fun r : gstate * bool => map (fun e => (fst r, e)) (ret_errs (snd r))) (g_ret ob) in
+  let finals := flat_map (fun r : gstate * bool =>
+                  let od := exec_list (Some (snd r)) deferred [fst r] in
+                  map (fun st : gstate => (rev (snd st), snd r)) (g_fall od)) rets in
+  (finals,
+   (* nothing is lost: the body cannot end without a return, the deferred function neither returns
+      nor loops over callbacks *)
+   negb (g_bad ob) && match g_fall ob with [] => true | _ => false end
+   && forallb (fun r : gstate * bool =>
+        let od := exec_list (Some (snd r)) deferred [fst r] in
+        negb (g_bad od) && match g_ret od, g_brk od, g_cont od with [], [], [] => true | _, _, _ => false end) rets).
+
+(* the states in which the last statement of the body (the main loop of runner.run) is entered *)
+Definition states_before_last (flag0 : bool) (body : list gstmt) : list gstate :=
+  g_fall (exec_list None (removelast body) [(flag0, [])]).
